@@ -407,6 +407,21 @@ def check_refuse(ctx, case):
     ctx.nontrivial(rel > 5e-3)
 
 
+def _wrapped_atom_on_edge(atoms, thicknesses, band=1e-9):
+    from fractions import Fraction
+    height = Fraction(float(atoms.cell[2, 2]))
+    edges = [Fraction(0)]
+    for t in thicknesses:
+        edges.append(edges[-1] + Fraction(float(t)))
+    for z in atoms.positions[:, 2]:
+        if 0.0 <= z < float(height):
+            continue
+        zf = Fraction(float(z)) % height
+        if any(abs(zf - e) < Fraction(band) for e in edges):
+            return True
+    return False
+
+
 def check_add(ctx, case):
     atoms = G.atoms_from(case["cell"])
     n = len(atoms)
@@ -433,6 +448,15 @@ def check_add(ctx, case):
             sub = atoms[idx] if len(idx) else atoms[[]]
             sizes.append(len(idx))
             parts.append(_build(sub, case, st, sigmas=_own_sigmas(case, sub))[1])
+    if case["projection"] == "finite" and _wrapped_atom_on_edge(atoms, tuple(whole.slice_thickness)):
+        # An atom OUTSIDE the cell whose periodic image lies (in exact arithmetic) on a slice boundary: the wrap is done
+        # in floating point (ase: fractional coordinates through a linear solve whose rounding depends on how many atoms
+        # are wrapped together), so the image lands 1e-15 above or below the boundary and the finite-projection
+        # integrators assign its non-Gaussian core to one slice or the other.  Which slice is right is undecidable at
+        # that precision and the statement does not fix it; union and parts can legitimately disagree.  Not judged.
+        ctx.note("unjudged-wrapped-atom-on-slice-boundary")
+        ctx.nontrivial(False)
+        return
     w = np.asarray(whole.array, dtype=np.float64)
     s = np.zeros_like(w)
     for p in parts:
